@@ -634,9 +634,6 @@ Qed.
 End Sign.
 
 (* ========== (5) covariance under an exact scaling of the samples ========== *)
-Definition res_map {A B} (f : A -> B) (r : res A) : res B :=
-  match r with Ok a => Ok (f a) | Err k => Err k | Panic => Panic end.
-
 Section Scale.
 Variable sc : F -> F.     (* x |-> c * x on samples and amplitudes *)
 Variable sc2 : F -> F.    (* x |-> c^2 * x on the residual sum of squares *)
@@ -654,7 +651,7 @@ Hypothesis sc2_inf : sc2 inf = inf.
 
 Notation msc := (map sc).
 Definition sc_pair (p : list F * list F) : list F * list F := (msc (fst p), msc (snd p)).
-Definition sc_out (p : F * list F) : F * list F := (sc2 (fst p), msc (snd p)).
+Notation sc_out := (Greedy.sc_out F sc sc2).
 
 Lemma drop_exact_map n : forall l, drop_exact n (msc l) = option_map msc (drop_exact n l).
 Proof. induction n as [|n IH]; intros l; [reflexivity|]. destruct l as [|x t]; [reflexivity|]. apply IH. Qed.
@@ -733,7 +730,7 @@ Proof.
   rewrite map_length. change (@nil F) with (msc []) at 1 2. rewrite greedy_loop_map.
   destruct (greedy_loop response rwin off la (S (length signal)) signal [] []) as [[residual input]| |];
     cbn [res_map bind]; try reflexivity.
-  unfold sc_pair, sc_out. cbn [fst snd]. rewrite sumsq_map. reflexivity.
+  unfold sc_pair, Greedy.sc_out. cbn [fst snd]. rewrite sumsq_map. reflexivity.
 Qed.
 
 Section LsScale.
@@ -746,7 +743,7 @@ Lemma ls_step_scale signal response best off la :
 Proof.
   unfold Greedy.ls_step. rewrite nn_scale.
   destruct (nn signal response off la) as [[r inp]| |]; cbn [res_map bind]; try reflexivity.
-  unfold sc_out at 1 2. cbn [fst snd]. rewrite sc2_ltb. destruct (ltb r (fst best)); reflexivity.
+  unfold Greedy.sc_out at 1 2. cbn [fst snd]. rewrite sc2_ltb. destruct (ltb r (fst best)); reflexivity.
 Qed.
 Lemma ls_inner_scale signal response off : forall las best,
   ls_inner nn (msc signal) response (sc_out best) off las = res_map sc_out (ls_inner nn signal response best off las).
@@ -764,7 +761,7 @@ Lemma ls_deconv_scale signal response offs las :
   ls_deconv nn (msc signal) response offs las = res_map msc (ls_deconv nn signal response offs las).
 Proof.
   unfold Greedy.ls_deconv.
-  replace (inf, @nil F) with (sc_out (inf, [])) at 1 by (unfold sc_out; cbn [fst snd map]; rewrite sc2_inf; reflexivity).
+  replace (inf, @nil F) with (sc_out (inf, [])) at 1 by (unfold Greedy.sc_out; cbn [fst snd map]; rewrite sc2_inf; reflexivity).
   rewrite ls_outer_scale.
   destruct (ls_outer nn signal response (inf, []) offs las) as [b| |]; reflexivity.
 Qed.
@@ -1062,12 +1059,6 @@ Proof. intros. eapply isolated_pulse_ls_sec; eassumption. Qed.
 (* Exact rationals (Qc: canonical fractions, Leibniz equality): the hypotheses of the Sections Sign,
    Scale, Pulse and PulseLs are satisfiable, and the theorems hold outright there. *)
 Local Open Scope Qc_scope.
-
-Definition q_dec (a b : Qc) : bool := if Qclt_le_dec a b then true else false.   (* a < b *)
-Definition q_neg (x : Qc) : bool := q_dec x 0.
-Definition q_nonneg (x : Qc) : bool := negb (q_dec x 0).
-Definition q_min (a b : Qc) : Qc := if q_dec b a then b else a.
-Definition nn_greedy_q := nn_greedy Qc 0 0 Qcplus Qcminus Qcmult Qcdiv q_min q_neg q_nonneg.
 
 Lemma q_dec_true a b : q_dec a b = true <-> a < b.
 Proof.
